@@ -440,7 +440,10 @@ func (d *Driver) exec(st *Step, g string) {
 	case "connect":
 		opts := []iscp.ConnOption{
 			iscp.WithConnTokenSource(iscp.TokenSourceFunc(func() (iscp.Token, error) { return iscp.Token(d.b.NextToken()), nil })),
-			iscp.WithConnDisconnectedEventHandler(iscp.DisconnectedEventHandlerFunc(func(*iscp.DisconnectedEvent) { d.rec.Log("Disconnected") })),
+			iscp.WithConnDisconnectedEventHandler(iscp.DisconnectedEventHandlerFunc(func(*iscp.DisconnectedEvent) {
+				d.rec.Log("Disconnected")
+				d.b.HandlerHold("Disconnected") // an application handler may take its time (step holdHandler)
+			})),
 			iscp.WithConnReconnectedEventHandler(iscp.ReconnectedEventHandlerFunc(func(*iscp.ReconnectedEvent) { d.rec.Log("Reconnected") })),
 			iscp.WithConnNodeID("node-" + d.sc.ID),
 		}
@@ -755,6 +758,11 @@ func (d *Driver) exec(st *Step, g string) {
 			if r.Obj != "" {
 				r.Sid = d.sid(r.Obj)
 			}
+			if r.Inc < 0 { // the incarnation that is current when the rule is installed
+				if inc := d.b.CurInc(); inc != nil {
+					r.Inc = inc.c
+				}
+			}
 			d.b.AddRule(&r)
 		}
 	case "clearRules":
@@ -1060,6 +1068,19 @@ func (d *Driver) doSendChunk(st *Step) {
 				return
 			}
 			st.Groups[gi].Al = int(a)
+		} else if st.Groups[gi].F == "al" && st.Groups[gi].Al > 0 && st.Groups[gi].Al < 90 {
+			// an explicit alias number: the broker uses it only if the client announced exactly this number for this
+			// data id (open request or an ack received so far); aliases >= 90 are the deliberately bogus ones
+			name, want := st.Groups[gi].ID, uint32(st.Groups[gi].Al)
+			if waitAlias(func() uint32 {
+				if d.b.AnnouncedIdAs(dn, name, want) {
+					return want
+				}
+				return 0
+			}) == 0 {
+				d.rec.Log("SendSkipped", "why", "data id alias not announced under this number", "id", name, "al", int(want), "seq", st.Seq)
+				return
+			}
 		}
 	}
 	if st.UpF == "alias" {
